@@ -60,6 +60,7 @@ step = st.one_of(
     st.tuples(st.just("del"), st.integers(0, 15)),
     st.tuples(st.just("del_present"), st.integers(0, 15)),
     st.tuples(st.just("obj"), st.integers(0, 7)),
+    st.tuples(st.just("obj_aug"), st.integers(0, 23)),
     st.tuples(st.just("solve"), st.sampled_from(["dense", "sparse"])),
     st.tuples(st.just("mutate_lists"), st.integers(0, 3)),
     st.tuples(st.just("bad_arg"), st.integers(0, 3)),
@@ -188,6 +189,7 @@ class Exec:
         else:
             self.op = op(obj, list(init))
         self.m_obj = obj
+        self.recipe = ("pool", case["init_obj"])         # how the current objective is obtained from the pool (for the twin)
         self.m_ineq = [c for c in init if c.type() == "<"]
         self.m_eq = [c for c in init if c.type() == "="]
         self.labels = set()
@@ -281,8 +283,26 @@ class Exec:
             f = self.objs[arg % len(self.objs)]
             self.guarded(s, lambda: setattr(o, 'objective', f))
             self.m_obj = f
+            self.recipe = ("pool", arg % len(self.objs))
             self.obj_changed = True
             self.labels.add("obj_reassign")
+        elif kind == "obj_aug":
+            # augmented assignment to the attribute: Python updates the function held by the op IN PLACE and assigns it
+            # back (lp.objective += f, lp.objective *= 0).  The op first gets a private copy of a pool objective.
+            i, j, zero = arg % len(self.objs), (arg // 3) % len(self.objs), arg % 3 == 0
+            if isinstance(self.objs[i], (int, float)) or isinstance(self.objs[j], (int, float)):
+                return
+            self.guarded(s, lambda: setattr(o, 'objective', +self.objs[i]))
+
+            def aug():
+                if zero:
+                    o.objective *= 0
+                o.objective += self.objs[j]
+            self.guarded(s, aug)
+            self.m_obj = o.objective
+            self.recipe = ("aug", i, j, zero)
+            self.obj_changed = True
+            self.labels.add("obj_augmented" + ("_zeroed" if zero else ""))
         elif kind == "mutate_lists":
             for l in (o.inequalities(), o.equalities(), o.constraints(), o.variables()):
                 if arg % 2 == 0:
@@ -318,10 +338,14 @@ class Exec:
         return p.status, (None if ov is None else float(ov[0]))
 
     def solve(self, fmt):
-        twin_obj = self.m_obj
-        for i, f in enumerate(self.objs):
-            if f is self.m_obj:
-                twin_obj = self.objs2[i]
+        if self.recipe[0] == "pool":
+            twin_obj = self.objs2[self.recipe[1]]
+        else:
+            _, i, j, zero = self.recipe
+            twin_obj = +self.objs2[i]
+            if zero:
+                twin_obj *= 0
+            twin_obj += self.objs2[j]
         fresh = op(twin_obj, [self.cons2[self._cid(c)] for c in list(self.m_ineq) + list(self.m_eq)])
         st2, v2 = self._solve1(fresh, fmt)
         st1, v1 = self._solve1(self.op, fmt)
